@@ -29,7 +29,7 @@ TIMEOUT = 900
 
 
 def cases(tier, seed):
-    forms = ["bare", "attr", "alias", "wrapped", "pkginit", "initroot"]
+    forms = ["bare", "attr", "alias", "wrapped", "pkginit", "initroot", "chain"]
     for form in forms:
         edges = all_edges(3, form)
         graphs = [(kinds, mask) for kinds in itertools.product(["memento", "plain"], repeat=2)
@@ -66,7 +66,7 @@ def render_small(pkg, n, kinds, edges, form):
         mod_of = lambda u: "b" if u == 0 else "__init__"
     elif form == "initroot":
         mod_of = lambda u: "__init__" if u == 0 else "a"
-    std = ["import functools", "import twosigma.memento as m", "from vf.recorder import REC"]
+    std = ["import functools", "import twosigma.memento as m", "from vf.recorder import REC", "from vf.twin import box"]
     texts = {"a": std + [""], "b": std + ["import %s.a as a" % pkg, ""], "__init__": []}
     if form == "pkginit":
         texts["__init__"] = std + [""]
@@ -91,6 +91,8 @@ def render_small(pkg, n, kinds, edges, form):
             elif form == "alias":
                 aliases[mod_of(u)].append("al_%d_%d = n%d" % (u, t, t))
                 refs.append("al_%d_%d(x)" % (u, t))
+            elif form == "chain":  # named only in the argument list of a call whose result is used through attributes
+                refs.append("box(n%d(x)).plus(n%d(x)).v" % (t, t))
             else:
                 refs.append("n%d(x)" % t)
         L += ["        " + r for r in refs] or ["        pass"]
